@@ -380,16 +380,27 @@ class C02(Prop):
         for _ in range(nrand):
             mode = rng.choice(MODES + ["ties", "ties"])
             n = rng.choice([2, 3, 5, 8, 13, 30, 80, 200])
-            yield {"det": rng.choice(DETS), "signal": random_signal(rng, n, mode), "mode": mode}
+            sig = random_signal(rng, n, mode)
+            det = rng.choice(DETS)
+            yield {"det": det, "signal": sig, "mode": mode}
+            # the rules must be realised for every way of feeding the signal (C02 *_chunked theorems)
+            yield {"det": det, "signal": sig, "mode": mode, "lens": random_cuts(rng, n)}
+        # exhaustive: every partition of every plateau-rich signal over 3 values up to length 6 (quick: 5)
+        ml = 5 if tier == "quick" else 6
+        for n in range(2, ml + 1):
+            for sig in itertools.product([0, 1, 2], repeat=n):
+                for lens in compositions(n):
+                    if len(lens) > 1:
+                        yield {"det": DETS[(sum(sig) + len(lens)) % 3], "signal": list(sig), "mode": "exh-chunked", "lens": lens}
 
     def model_lines(self, case):
         n = len(case["signal"])
         sig = " ".join(map(str, case["signal"]))
-        return [rf_line(case["det"], case["signal"], [n]), f"spec {case['det']} {sig}"]
+        return [rf_line(case["det"], case["signal"], case.get("lens") or [n]), f"spec {case['det']} {sig}"]
 
     def impl_lines(self, case):
         det = case["det"]
-        o = run_impl(det, [case["signal"]])
+        o = run_impl(det, split(case["signal"], case["lens"]) if case.get("lens") else [case["signal"]])
         s = self.stats
         s["by_detector"][det] = s["by_detector"].get(det, 0) + 1
         s["by_mode"][case["mode"]] = s["by_mode"].get(case["mode"], 0) + 1
@@ -414,7 +425,7 @@ class C02(Prop):
 
     def oracle(self, case):
         det, sig = case["det"], case["signal"]
-        o = run_impl(det, [sig])
+        o = run_impl(det, split(sig, case["lens"]) if case.get("lens") else [sig])
         tps = ref_turning_points(sig)
         if det in ("fourpoint", "threepoint"):
             cycles, resid = ref_fourpoint(tps)
@@ -450,6 +461,8 @@ class C02(Prop):
         return None
 
     def shrink(self, case, still_fails):
+        if case.get("lens") and len(case["lens"]) > 1:
+            return shrink_signal_case(case, lambda x: len(x["signal"]) >= 2 and still_fails(x))
         c = dict(case, lens=[len(case["signal"])])
         r = shrink_signal_case(c, lambda x: len(x["signal"]) >= 2 and still_fails({k: v for k, v in x.items() if k != "lens"}))
         r.pop("lens", None)
